@@ -8,6 +8,8 @@ Pipeline (a batch pipeline: a scenario is a *range / list / seeded-sample descri
   2. Gen_Fmt*.cfg    TLC prints the batch descriptions (every number in them computed by the spec).
   3. vh gen fmt      seeded random batches in the same vocabulary (VERIF_SEED).
   4. vh run fmt      the real imf_fixdate / itoa / hexized / hexized_bytes on every element; parsed fields / byte codes.
+                     wire-cl / wire-chunk batches: real responses through the real Response::send (Content-Length, Date,
+                     chunk-size line), i.e. the formatters as their callers use them.
   5. Trace_Fmt       judges every element of every batch inside TLC; one VERDICT per batch whose signature names the
                      class of the first element outside the property.  Chunks are validated by several TLC processes.
 """
@@ -21,7 +23,8 @@ PAR = 8                 # TLC trace-validation processes at a time (one worker e
 CHUNK_WEIGHT = 200000   # upper bound on the weighted elements per TLC process (bounded memory, ~20 s each)
 
 RULE = ("a scenario is a batch: a range of day numbers at one second of day, a list of calendar-boundary days, a range of "
-        "seconds of one day, a range / boundary list of unsigned values, or a seeded random sample, emitted by TLC from "
+        "seconds of one day, a range / boundary list of unsigned values, a seeded random sample, or a list of body / chunk sizes "
+        "of real responses (Content-Length, Date, chunk-size on the wire), emitted by TLC from "
         "Gen_Fmt*.cfg (plus `vh gen fmt` random batches); the real function is called for EVERY element and every element is "
         "judged by Trace_Fmt inside TLC (evaluations = elements judged). distinct = batches are de-duplicated by their "
         "description; non-trivial = the batch contains at least one irregular element, counted by the trace spec on the "
@@ -47,6 +50,8 @@ def weight(s):
         n = s["to"] - s["from"] + 1
     elif k == "num-list":
         n = len(s["vals"])
+    elif k.startswith("wire-"):
+        n = len(s["sizes"])
     else:
         n = s["n"]
     w = n
@@ -95,6 +100,15 @@ def element(o, i):
             l = scn["vals"][k] if kind == "num-list" else ob["vals"][k]
             v = l[0] | l[1] << 16 | l[2] << 32 | l[3] << 48
         return {"fn": scn["fn"], "n": str(v), "output": "".join(chr(c) if 32 <= c < 127 else "?" for c in ob["out"][k])}
+    if ob.get("kind") == "wire":
+        e = {"fn": "Response::send", "size": scn["sizes"][k], "field_bytes": "".join(chr(c) if 32 <= c < 127 else "?" for c in ob["out"][k]), "err": ob["err"][k]}
+        if scn["kind"] == "wire-cl":
+            e["header"] = "Content-Length"
+            e["date_header_fields"] = {f: ob[f][k] for f in ("wd", "dd", "mon", "yy", "hh", "mi", "ss", "len", "frame")}
+            e["harness_clock"] = [86400 * ob["t0day"][k] + ob["t0sod"][k], 86400 * ob["t1day"][k] + ob["t1sod"][k]]
+        else:
+            e["header"] = "chunk-size"; e["bytes_following"] = ob["follow"][k]
+        return e
     return {"obs": ob}
 
 
@@ -113,10 +127,10 @@ def judge_chunk(ctx, idx, scns, results, lock):
         if not vs or len(vs) != 1:
             raise ToolError("Trace_Fmt printed %d verdicts for batch id=%s" % (len(vs or []), o["id"]))
         v = vs[0]
-        item = {"id": o["id"], "scn": o["scn"], "ok": v["ok"], "n": v["n"], "nt": v["nt"], "sig": v["sig"], "first": v["first"]}
+        item = {"id": o["id"], "scn": o["scn"], "ok": v["ok"], "n": v["n"], "nt": v["nt"], "sig": v["sig"], "first": v["first"], "skip": v.get("skip", 0)}
         if not v["ok"]:
             item["elem"] = element(o, v["first"]) if v["first"] >= 1 else {"obs": {k: o["obs"][k] for k in list(o["obs"])[:4]}}
-        elif o["id"] % 97 == 0 or o["scn"]["kind"] in ("num-list",):
+        elif o["id"] % 97 == 0 or o["scn"]["kind"] in ("num-list", "wire-cl", "wire-chunk"):
             item["sample"] = element(o, 1 + (o["id"] * 7919) % max(1, v["n"]))
         res.append(item)
     os.remove(outp)
@@ -185,6 +199,10 @@ def run(ctx):
     ctx.extra["elements_judged_by_kind"] = per_kind
     ctx.extra["irregular_elements"] = irregular
     ctx.extra["batches"] = len(results)
+    skipped = sum(r["skip"] for r in results)
+    if skipped:
+        ctx.note("%d real response(s) could not be cut into head / single chunk by the harness (framing, decided by C03/C17): "
+                 "their Content-Length / chunk-size fields were not judged" % skipped)
     kinds_seen = set()
     for r in results:
         if "sample" in r and r["scn"]["kind"] + r["scn"].get("fn", "") not in kinds_seen and len(ctx.samples) < 8:
